@@ -57,6 +57,9 @@ def good_streams(ctx, rng, n):
       else:
         dp = wiresys.gen_datapoint(rng)
         frames.append(dict(bytes=wiresys.line_of(dp, rng), kind='good', dps=[dp]))
+        if rng.random() < 0.2:
+          # clients end with or interleave blank lines: they carry nothing and harm nothing
+          frames.append(dict(bytes=rng.choice([b'\n', b'  \n', b'\r\n', b'\t \n']), kind='good', dps=[], what='blank line'))
     if frames:
       out.append((proto, frames))
   return out
@@ -85,8 +88,9 @@ def run_streams(ctx, wm, streams, budget, rng, with_res=False, with_pause=False)
       ndp = sum(len(f['dps']) for f in frames)
       pause_at = (len(traces) % ndp) + 1 if (with_pause and proto != 'udp' and ndp and len(traces) % 3 == 0) else 0
       idle = 8 if (with_pause and len(traces) % 4 == 1) else None
-      traces.append(wiresys.execute(wm, proto, frames, cuts, None, res=res, pause_at=pause_at, idle=idle))
-      origins.append(dict(proto=proto, cuts=cuts, MIN_TIMESTAMP_RESOLUTION=res, pause_during_datapoint=pause_at, METRIC_CLIENT_IDLE_TIMEOUT=idle, frames=[dict(kind=f['kind'], what=f.get('what', ''), hex=f['bytes'].hex()) for f in frames]))
+      failing = bool(with_res and len(traces) % 7 == 3)
+      traces.append(wiresys.execute(wm, proto, frames, cuts, None, res=res, pause_at=pause_at, idle=idle, failing=failing))
+      origins.append(dict(proto=proto, cuts=cuts, MIN_TIMESTAMP_RESOLUTION=res, pause_during_datapoint=pause_at, METRIC_CLIENT_IDLE_TIMEOUT=idle, another_subscriber_fails=failing, frames=[dict(kind=f['kind'], what=f.get('what', ''), hex=f['bytes'].hex()) for f in frames]))
       ctx.evaluations += 1
   return traces, origins
 
